@@ -138,7 +138,7 @@ theorem delete_spec (g g' : G) (sub : List Nat) (h : delete g sub = .ok g') :
         obtain ⟨cs, hcs, hc⟩ := c3 hk
         refine foldl_runExit_kills sub exits.reverse _ q _ (List.mem_reverse.mpr hcs) ?_ hq
         intro refs' hm
-        simp [runExit, hk, hc] at hm
+        simp [runExit, hc] at hm
     · intro n hn
       simp only [List.mem_filter, List.mem_append, not_or, decide_eq_true_eq] at hn
       exact ⟨hn.1, hn.2.1⟩
